@@ -256,6 +256,14 @@ Fixpoint zw_loop (rec : rec_t) (k : nat) (ply depth a : Z) (cut : bool) (s : sst
     end
   end.
 
+(* the search of one child in pvSearch: full window for the first child, zero-window scout (and re-search) for the others *)
+Definition pv_child (rec : rec_t) (s : sstate) (child : position) (ply depth : Z) (best : list rmove) (a b i : Z) : sres :=
+  if 1 <? i then
+    let '(s, (ms, v)) := rec true s child (ply + 1) (depth - 1) (tl best) (- a - 1) 0 true in
+    if (a <? - v) && (- v <? b) then rec false (bump s (st_add 0 0 0 0 1 0 0 0 0 0 0)) child (ply + 1) (depth - 1) (tl best) (- b) (- a) true
+    else (s, (ms, v))
+  else rec false s child (ply + 1) (depth - 1) (tl best) (- b) (- a) true.
+
 (* the child loop of pvSearch: result (state, best, α, improved, aborted) *)
 Fixpoint pv_loop (rec : rec_t) (k : nat) (ply depth b : Z) (s : sstate) (g : mgen) (i : Z) (best : list rmove) (a : Z) (improved : bool)
   : sstate * list rmove * Z * bool * bool :=
@@ -266,12 +274,7 @@ Fixpoint pv_loop (rec : rec_t) (k : nat) (ply depth b : Z) (s : sstate) (g : mge
     | Some (m, child) =>
       let i := i + 1 in
       let s := set_fm s ply m in
-      let '(s, (ms, v)) :=
-        if 1 <? i then
-          let '(s, (ms, v)) := rec true s child (ply + 1) (depth - 1) (tl best) (- a - 1) 0 true in
-          if (a <? - v) && (- v <? b) then rec false (bump s (st_add 0 0 0 0 1 0 0 0 0 0 0)) child (ply + 1) (depth - 1) (tl best) (- b) (- a) true
-          else (s, (ms, v))
-        else rec false s child (ply + 1) (depth - 1) (tl best) (- b) (- a) true in
+      let '(s, (ms, v)) := pv_child rec s child ply depth best a b i in
       let v := - v in
       if a <? v then
         let best := m :: ms in
@@ -282,55 +285,76 @@ Fixpoint pv_loop (rec : rec_t) (k : nat) (ply depth b : Z) (s : sstate) (g : mge
     end
   end.
 
-(* zwSearch after the table probe *)
-Definition zw_node (rec : rec_t) (s : sstate) (te : option nat) (p : position) (ply depth : Z) (pv : list rmove) (a : Z) (cut : bool) : sres :=
-  let null_result : sstate * option (list rmove * Z) :=
-    if null_move_ok s ply depth p then
-      let s := set_fm s ply {| mX := 0; mY := 0; mT := 1; mS := 0 |} in
-      let s := bump s (st_add 0 0 0 0 0 0 1 0 0 0 0) in
-      let '(s, (_, v)) := rec true s (pass_move p) (ply + 1) (depth - 3) [] (- a - 1) 0 true in
-      if a + 1 <=? - v then (bump s (st_add 0 0 0 0 0 0 0 1 0 0 0), Some ([], - v)) else (s, None)
-    else (s, None) in
-  let '(s, nr) := null_result in
-  match nr with Some r => (s, r) | None =>
-  let '(s, depth) :=
-    if negb (c_noreduce cfg) && (0 <? ply) then
-      let m := znth (fm s) (ply - 1) move0 in
-      if (5 <=? mT m)%N && (15 <? mS m)%N then
-        let sz := wrap8 (Z.of_N (size p)) in
-        let i := wrap8 (mX m + wrap8 (mY m * sz)) in
-        let l := Z.of_nat (length (nibbles 8 (mS m))) in
-        let '(dx, dy) := if (mT m =? 5)%N then (wrap8 (mX m - l), mY m) else if (mT m =? 6)%N then (wrap8 (mX m + l), mY m)
-                         else if (mT m =? 7)%N then (mX m, wrap8 (mY m + l)) else (mX m, wrap8 (mY m - l)) in
-        let j := wrap8 (dx + wrap8 (dy * sz)) in
-        if (nthN (Height p) (Z.to_N i) =? 0)%N && (Z.of_N (nthN (Height p) (Z.to_N j)) =? Z.of_N (N.land (mS m) 15))
-        then (bump s (st_add 0 0 0 0 0 0 0 0 1 0 0), depth - 2) else (s, depth)
-      else (s, depth)
-    else (s, depth) in
-  let g0 := new_gen s te pv ply depth p in
-  (* multi-cut *)
-  let mc : sstate * mgen * bool :=
-    if c_multicut cfg && cut && (3 <? depth) then
-      let s := bump s (st_add 0 0 0 0 0 0 0 0 0 1 0) in
-      let '(g1, first) := mg_next 700 s g0 in
-      match first with
-      | None => (s, g1, false)
-      | Some (m, child0) => mc_loop rec 8%nat ply depth a cut m s g1 child0 0 0
-      end
-    else (s, g0, false) in
-  let '(s, g, mccut) := mc in
-  if mccut then (s, ([], a + 1)) else
+(* the table store at the end of zwSearch / pvSearch (ttPut refuses once the flag is set) *)
+Definition zw_store (s : sstate) (p : position) (depth : Z) (best : list rmove) (a : Z) (didcut : bool) : sstate :=
+  let '(s, slot) := tt_put s (phash p) in
+  match slot with
+  | Some i => let s := write_entry s i (phash p) depth (hd move0 best) a (if didcut then 0%N else 2%N) in
+              if didcut then s else bump s (st_add 0 0 0 0 0 1 0 0 0 0 0)
+  | None => s end.
+Definition pv_store (s : sstate) (p : position) (depth : Z) (best : list rmove) (a' b : Z) (improved : bool) : sstate :=
+  let h := phash p in
+  let '(s, slot) := tt_put s h in
+  match slot with
+  | Some i =>
+    let te1 := nth i (table s) entry0 in
+    if negb (e_hash te1 =? h)%N || (e_depth te1 <=? depth) then
+      let s := write_entry s i h depth (hd move0 best) a' (if negb improved then 2%N else if b <=? a' then 0%N else 1%N) in
+      if negb improved then bump s (st_add 0 0 0 0 0 1 0 0 0 0 0) else s
+    else s
+  | None => s end.
+
+(* zwSearch, last part: the child loop and the store *)
+Definition zw_tail (rec : rec_t) (s : sstate) (g : mgen) (p : position) (ply depth a : Z) (cut : bool) : sres :=
   let g := set_i g 0 in
   let best0 := firstn 1 (znth (fpv s) ply []) in
   let '(s, best, didcut, aborted) := zw_loop rec 700%nat ply depth a cut s g 0 best0 in
   if aborted then (s, ([], 0)) else
-  let '(s, slot) := tt_put s (phash p) in
-  let s := match slot with
-           | Some i => let s := write_entry s i (phash p) depth (hd move0 best) a (if didcut then 0%N else 2%N) in
-                       if didcut then s else bump s (st_add 0 0 0 0 0 1 0 0 0 0 0)
-           | None => s end in
-  (s, (best, if didcut then a + 1 else a))
-  end.
+  (zw_store s p depth best a didcut, (best, if didcut then a + 1 else a)).
+
+(* zwSearch, multi-cut *)
+Definition zw_mc (rec : rec_t) (s : sstate) (g0 : mgen) (p : position) (ply depth a : Z) (cut : bool) : sres :=
+  if c_multicut cfg && cut && (3 <? depth) then
+    let s := bump s (st_add 0 0 0 0 0 0 0 0 0 1 0) in
+    let '(g1, first) := mg_next 700 s g0 in
+    match first with
+    | None => zw_tail rec s g1 p ply depth a cut
+    | Some (m, child0) =>
+      let '(s, g, mccut) := mc_loop rec 8%nat ply depth a cut m s g1 child0 0 0 in
+      if mccut then (s, ([], a + 1)) else zw_tail rec s g p ply depth a cut
+    end
+  else zw_tail rec s g0 p ply depth a cut.
+
+(* zwSearch, slide reduction (m.IsSlide() && m.Slides.Singleton(), origin emptied, destination holds exactly the moved stones) *)
+Definition reduce_slide (s : sstate) (p : position) (ply depth : Z) : sstate * Z :=
+  if negb (c_noreduce cfg) && (0 <? ply) then
+    let m := znth (fm s) (ply - 1) move0 in
+    if (5 <=? mT m)%N && (15 <? mS m)%N then
+      let sz := wrap8 (Z.of_N (size p)) in
+      let i := wrap8 (mX m + wrap8 (mY m * sz)) in
+      let l := Z.of_nat (length (nibbles 8 (mS m))) in
+      let '(dx, dy) := if (mT m =? 5)%N then (wrap8 (mX m - l), mY m) else if (mT m =? 6)%N then (wrap8 (mX m + l), mY m)
+                       else if (mT m =? 7)%N then (mX m, wrap8 (mY m + l)) else (mX m, wrap8 (mY m - l)) in
+      let j := wrap8 (dx + wrap8 (dy * sz)) in
+      if (nthN (Height p) (Z.to_N i) =? 0)%N && (Z.of_N (nthN (Height p) (Z.to_N j)) =? Z.of_N (N.land (mS m) 15))
+      then (bump s (st_add 0 0 0 0 0 0 0 0 1 0 0), depth - 2) else (s, depth)
+    else (s, depth)
+  else (s, depth).
+
+(* zwSearch: slide reduction, then the generator is created (snapshotTE reads the table as it is now) *)
+Definition zw_reduce (rec : rec_t) (s : sstate) (te : option nat) (p : position) (ply depth : Z) (pv : list rmove) (a : Z) (cut : bool) : sres :=
+  let '(s, depth) := reduce_slide s p ply depth in
+  zw_mc rec s (new_gen s te pv ply depth p) p ply depth a cut.
+
+(* zwSearch after the table probe: null move first *)
+Definition zw_node (rec : rec_t) (s : sstate) (te : option nat) (p : position) (ply depth : Z) (pv : list rmove) (a : Z) (cut : bool) : sres :=
+  if null_move_ok s ply depth p then
+    let s := set_fm s ply {| mX := 0; mY := 0; mT := 1; mS := 0 |} in
+    let s := bump s (st_add 0 0 0 0 0 0 1 0 0 0 0) in
+    let '(s, (_, v)) := rec true s (pass_move p) (ply + 1) (depth - 3) [] (- a - 1) 0 true in
+    if a + 1 <=? - v then (bump s (st_add 0 0 0 0 0 0 0 1 0 0 0), ([], - v))
+    else zw_reduce rec s te p ply depth pv a cut
+  else zw_reduce rec s te p ply depth pv a cut.
 
 (* pvSearch after the table probe *)
 Definition pv_node (rec : rec_t) (s : sstate) (te : option nat) (p : position) (ply depth : Z) (pv : list rmove) (a b : Z) : sres :=
@@ -340,17 +364,7 @@ Definition pv_node (rec : rec_t) (s : sstate) (te : option nat) (p : position) (
   let s := set_fpv s ply (set_prefix arr0 best0) in
   let '(s, best, a', improved, aborted) := pv_loop rec 700%nat ply depth b s g0 0 best0 a false in
   if aborted then (s, ([], 0)) else
-  let h := phash p in
-  let '(s, slot) := tt_put s h in
-  let s := match slot with
-           | Some i =>
-             let te1 := nth i (table s) entry0 in
-             if negb (e_hash te1 =? h)%N || (e_depth te1 <=? depth) then
-               let s := write_entry s i h depth (hd move0 best) a' (if negb improved then 2%N else if b <=? a' then 0%N else 1%N) in
-               if negb improved then bump s (st_add 0 0 0 0 0 1 0 0 0 0 0) else s
-             else s
-           | None => s end in
-  (s, (best, a')).
+  (pv_store s p depth best a' b improved, (best, a')).
 
 (* one node: leaf test, counters, table probe, then zw_node / pv_node *)
 Definition srch_step (rec : rec_t) : rec_t := fun zw s p ply depth pv a b cut =>
